@@ -42,7 +42,7 @@ def gen_plan(seed, tier="quick"):
     plan = {"engine": "drvsim", "property": PROP, "driver": driver, "seed": seed,
             "knobs": plans.gen_knobs(r, driver, allow_batch=True),
             "callers": plans.gen_callers(r, driver, ncallers, 3 if tier == "quick" else 4,
-                                         cancel_sends=True, parallel=0.06),
+                                         cancel_sends=True, parallel=0.06, unsupported=0.04),
             "deadline_s": 600}
     return plan
 
@@ -83,6 +83,16 @@ def judge(rr):
     if None in by_unit:
         V("untagged-frame", "frame written outside any caller unit: %s" % (by_unit[None],))
     for u, rec in rr.ops.items():
+        if rec.status == "livelock":
+            V("caller-never-completes", "unit %s (%s): the driver never returned to the event loop (%s)" % (
+                u, rec.op["kind"], rec.exc), site="spins")
+            continue
+        if rec.op.get("unsupported"):
+            # refused at once: an exception, nothing on the wire
+            if rec.status != "raised" or by_unit.get(u):
+                V("unsupported-frame-not-refused", "unit %s: %d-bit frame, exceptions=%r: %s, wire %s" % (
+                    u, rec.op["cmd"][0], rec.op.get("exceptions"), rec.status, _fmt(by_unit.get(u, []))), site=drv)
+            continue
         specs = drvsim.op_cmd_specs(rec.op)
         exp = cmds.expected_wire(specs)
         got = by_unit.get(u, [])
